@@ -37,6 +37,8 @@ TABLES = ("_catch_error_handlers", "_handler_for_step")
 
 def run(chk) -> None:
     repo = chk.repo
+    from ._engine import engine_view
+    chk.extra["helpers_inlined"] = engine_view(repo)
     # ---------------------------------------------------------------- R1 tables on every path
     mw, val = repo.func(f"{WFM}:Workflow._validate")
     cfg = CFG(val)
@@ -179,7 +181,11 @@ def run(chk) -> None:
             ee = expand(e, f, depth=2) if e is not None else None
             chk.ob("C08.R2", "the run fails with the original exception", ee is not None and ast.unparse(ee).endswith("result.exception"), m=mc, node=f, fn=sr, instance="fail:original-exception", reason=f"exception={ast.unparse(ee) if ee is not None else None}")
 
-    # lineage propagation: constructions that continue an execution copy recovery_counts
+    # lineage propagation: a construction that continues an execution's lineage copies recovery_counts. A construction
+    # continues a lineage when it carries any retry-lineage field (attempts / first_attempt_at / last_exception /
+    # last_failed_at), when it re-queues a step's output or failed input in the result reducer, or when it forwards a
+    # queued command / a step's send_event.  Fresh attempts (only `event=`, e.g. the start event or a waiter replay) do not.
+    LINEAGE_FIELDS = ("attempts", "first_attempt_at", "last_exception", "last_failed_at")
     sites = 0
     for mod in wf_modules(repo):
         if mod.name not in (CL, "workflows.context.internal_context"):
@@ -190,15 +196,18 @@ def run(chk) -> None:
             fn = enclosing_function(c)
             if fn is None:
                 continue
-            ev = kwarg(c, "event")
-            evt = ast.unparse(ev) if ev is not None else ""
-            fresh = evt in ("start_event", "waiter.event", "wait_condition.event")  # a new lineage / waiter replay (observation below)
-            if fresh or (last(call_name(c)) == "RetryAttempt" and not c.keywords):
+            kws = {k.arg for k in c.keywords if k.arg}
+            carries = bool(kws & set(LINEAGE_FIELDS)) or (last(call_name(c)) == "RetryAttempt" and "retry_number" in kws)
+            in_result_reducer = fn.name == "_process_step_result_tick" and last(call_name(c)) == "CommandQueueEvent"
+            in_send = fn.name == "send_event" and mod.name.endswith("internal_context") and last(call_name(c)) == "TickAddEvent"
+            if not (carries or in_result_reducer or in_send):
                 continue
             sites += 1
+            ev = kwarg(c, "event")
+            evt = ast.unparse(ev).split(".")[-1] if ev is not None else "n/a"
             rc = kwarg(c, "recovery_counts")
-            chk.ob("C08.R2", f"{last(call_name(c))} built in {qualname_of(fn)} carries the lineage's recovery_counts", rc is not None and "recovery_counts" in ast.unparse(rc), m=mod, node=c, fn=fn,
-                   instance=f"lineage:{last(call_name(c))}:{evt or 'n/a'}", reason="recovery_counts is not copied: the handler budget restarts for this lineage")
+            chk.ob("C08.R2", f"{last(call_name(c))} built in {qualname_of(fn)} carries the lineage's recovery_counts", rc is not None and "recovery_counts" in ast.unparse(expand(rc, c, depth=1)), m=mod, node=c, fn=fn,
+                   instance=f"lineage:{last(call_name(c))}:{qualname_of(fn).split('.')[-1]}:{evt}", reason="recovery_counts is not copied: the handler budget restarts for this lineage")
     chk.floor("C08.R2", "lineage construction sites", sites, 8)
     chk.observe("waiter replays (`EventAttempt(event=waiter.event)`) start with empty recovery_counts: a lineage that passes through wait_for_event restarts its handler budget (not gated; outside the anchored mechanism)")
 
